@@ -1,10 +1,14 @@
-"""Self-validation: apply one seeded breakage to /repo, run the named checks, undo it.
+"""Self-validation: run checks against one seeded breakage.
+
+The patch is applied to a scratch worktree of /repo under /tmp (never to /repo itself); the checks
+are pointed at it with PANE_VERIF_REPO and write their evidence / replays into a scratch directory.
 
 usage: /venv/bin/python -m harness.seedtest <seed dir> <check id> [<check id> ...] [--tier quick]
 Prints, per check, DETECTED (exit 1 with VIOLATION) / MISSED (exit 0) / BROKEN (exit 2)."""
 from __future__ import annotations
 
 import os
+import shutil
 import subprocess
 import sys
 
@@ -17,40 +21,36 @@ def main():
     if '--tier' in sys.argv:
         tier = sys.argv[sys.argv.index('--tier') + 1]
         args = [a for a in args if a != tier]
-    seed, checks = args[0], args[1:]
+    seed, checks = os.path.abspath(args[0]), args[1:]
     patch = os.path.join(seed, 'patch.diff')
-    st = subprocess.run(['git', '-C', '/repo', 'status', '--porcelain', '--untracked-files=no'], capture_output=True, text=True)
-    if st.stdout.strip():
-        print('refusing: /repo has uncommitted changes')
-        return 2
-    ap = subprocess.run(['git', '-C', '/repo', 'apply', '--3way', patch], capture_output=True, text=True)
-    if ap.returncode != 0:
-        ap = subprocess.run(['git', '-C', '/repo', 'apply', patch], capture_output=True, text=True)
-    if ap.returncode != 0:
-        print('patch does not apply:', ap.stderr[-500:])
-        subprocess.run(['git', '-C', '/repo', 'checkout', '--', '.'])
-        subprocess.run(['git', '-C', '/repo', 'reset', '-q'])
-        return 2
-    results = {}
+    name = os.path.basename(seed.rstrip('/'))
+    wt = f'/tmp/seedwt-{name}-{os.getpid()}'
+    scratch = f'/tmp/seedev-{name}-{os.getpid()}'
+    subprocess.run(['git', '-C', '/repo', 'worktree', 'add', '--detach', '-q', wt, 'HEAD'], check=True)
     try:
+        ap = subprocess.run(['git', '-C', wt, 'apply', patch], capture_output=True, text=True)
+        if ap.returncode != 0:
+            ap = subprocess.run(['git', '-C', wt, 'apply', '--3way', patch], capture_output=True, text=True)
+        if ap.returncode != 0:
+            print('patch does not apply:', ap.stderr[-500:])
+            return 2
+        os.makedirs(scratch, exist_ok=True)
+        env = dict(os.environ, PANE_VERIF_REPO=wt, PANE_VERIF_EVIDENCE=os.path.join(scratch, 'evidence'),
+                   PANE_VERIF_REPLAYS=os.path.join(scratch, 'replays'))
+        os.makedirs(env['PANE_VERIF_EVIDENCE'], exist_ok=True)
         for c in checks:
-            p = subprocess.run([os.path.join(VERIF, 'check'), c, '--tier', tier], capture_output=True, text=True, cwd=VERIF)
+            p = subprocess.run([os.path.join(VERIF, 'check'), c, '--tier', tier], capture_output=True, text=True, cwd=VERIF, env=env)
             viol = [ln for ln in p.stdout.splitlines() if ln.startswith('VIOLATION')]
             sigs = sorted({ln.strip() for ln in p.stdout.splitlines() if ln.strip().startswith('signature:')})
-            if p.returncode == 1 and viol:
-                results[c] = 'DETECTED'
-            elif p.returncode == 0:
-                results[c] = 'MISSED'
-            else:
-                results[c] = f'BROKEN(exit {p.returncode})'
-            print(f'{os.path.basename(seed.rstrip("/"))} {c}: {results[c]}  ({len(viol)} violation lines)')
+            res = 'DETECTED' if p.returncode == 1 and viol else 'MISSED' if p.returncode == 0 else f'BROKEN(exit {p.returncode})'
+            print(f'{name} {c}: {res}  ({len(viol)} violation lines)', flush=True)
             for s in sigs[:6]:
                 print('    ', s[:200])
-            if results[c].startswith('BROKEN'):
+            if res.startswith('BROKEN'):
                 print(p.stdout[-1500:], p.stderr[-1500:])
     finally:
-        subprocess.run(['git', '-C', '/repo', 'reset', '-q'])
-        subprocess.run(['git', '-C', '/repo', 'checkout', '--', '.'])
+        subprocess.run(['git', '-C', '/repo', 'worktree', 'remove', '--force', wt])
+        shutil.rmtree(scratch, ignore_errors=True)
     return 0
 
 
